@@ -66,7 +66,8 @@ def tasks(tier):
     # "in the documented order, over the same neighbours" is C03's contract:
     # its obligations are re-checked here (dep.*) so that a change to the
     # shared code generation that breaks this property fails this check too
-    return ['symbols', 'set_kernel', 'closure', 'canary', 'dep:skeleton',
+    return ['symbols', 'set_kernel', 'closure', 'wiring', 'canary',
+            'dep:skeleton',
             'dep:range', 'dep:determinism', 'dep:bounded']
 
 
@@ -259,6 +260,8 @@ def run_task(task, ctx):
         return task_set_kernel(ctx, repo)
     if task == 'closure':
         return task_closure(ctx, repo)
+    if task == 'wiring':
+        return task_wiring(ctx, repo)
     if task == 'canary':
         x = z3.Real('cx')
         ctx.canary('canary.must_fail', Obligation('c', [], WF(x, x, x, x, x)
@@ -436,3 +439,133 @@ def task_closure(ctx, repo):
     ctx.prove('closure.bounded_check_ran', [Obligation(
         'ran', [], z3.BoolVal(cases > 0), m.path)],
         info='bounded, not proved: see coverage.bounded')
+
+
+# --------------------------------------------------------------- call wiring
+def task_wiring(ctx, repo):
+    """CythonGroup._get_code / get_py_initialize_code: every equation method
+    is called on the equation's own object with the method's parameters
+    passed by NAME in declaration order (self dropped, SPH_KERNEL ->
+    self.kernel); reduce and py_initialize get (dst.array, t, dt) as
+    documented; the loop preamble is the precomputed blocks in their order."""
+    m = repo.module(EQ)
+    W = m.path
+    cls = 'CythonGroup'
+
+    def eqn(var, methods):
+        attrs = dict(var_name=var)
+        for k in methods:
+            attrs[k] = ('method', var, k)
+        o = SymObject(None, attrs, var)
+        o.argspec = methods
+        return o
+    e0 = eqn('eq0', {'initialize': ['self', 'd_idx', 'd_au', 't', 'dt'],
+                     'loop': ['self', 'd_idx', 's_idx', 'd_au', 's_m',
+                              'DWIJ', 'WIJ', 'SPH_KERNEL', 'dt', 't'],
+                     'reduce': ['self', 'dst', 't', 'dt'],
+                     'py_initialize': ['self', 'dst', 't', 'dt']})
+    e1 = eqn('eq1', {'loop': ['self', 's_idx', 'd_idx', 'XIJ'],
+                     'post_loop': ['self', 'd_idx', 'd_au', 'dt', 't'],
+                     'loop_all': ['self', 'd_idx', 'd_x', 's_x', 'NBRS',
+                                  'N_NBRS'],
+                     'initialize_pair': ['self', 'd_idx', 'd_au', 't'],
+                     'reduce': ['self', 'dst', 't', 'dt']})
+    eqs = {'eq0': e0, 'eq1': e1}
+
+    def argspec(e, s_, a, k, n):
+        meth = a[0]
+        return SymObject(None, dict(args=list(eqs[meth[1]].argspec[meth[2]])),
+                         'spec')
+    pre = {'XIJ': SymObject(None, dict(code='XIJ_CODE\n'), 'cb1'),
+           'WIJ': SymObject(None, dict(code=' WIJ = KERNEL(XIJ, RIJ, HIJ) '),
+                            'cb2')}
+
+    def run(kind, kernel):
+        obj = SymObject(cls, dict(equations=[e0, e1], precomputed=dict(pre),
+                                  name='grp'), 'self')
+        obj.module = m.name
+        ex = Executor(repo, m, qualname=cls + '._get_code', merge=False,
+                      inline={cls + '._set_kernel'},
+                      externals={'getfullargspec': argspec})
+        fn = m.methods(cls)['_get_code']
+        outs = ex.exec_function(fn, dict(self=obj, kernel=kernel, kind=kind))
+        return outs[0].value if len(outs) == 1 and outs[0].kind == 'return' \
+            else ('outcomes', [(o.kind, str(o.value)[:60]) for o in outs])
+    want = {
+        'initialize': 'self.eq0.initialize(d_idx, d_au, t, dt)\n',
+        'initialize_pair': 'self.eq1.initialize_pair(d_idx, d_au, t)\n',
+        'loop': 'XIJ_CODE\nWIJ = self.kernel.kernel(XIJ, RIJ, HIJ)\n\n'
+                'self.eq0.loop(d_idx, s_idx, d_au, s_m, DWIJ, WIJ, '
+                'self.kernel, dt, t)\nself.eq1.loop(s_idx, d_idx, XIJ)\n',
+        'loop_all': 'self.eq1.loop_all(d_idx, d_x, s_x, NBRS, N_NBRS)\n',
+        'post_loop': 'self.eq1.post_loop(d_idx, d_au, dt, t)\n',
+        'reduce': 'self.eq0.reduce(dst.array, t, dt)\n'
+                  'self.eq1.reduce(dst.array, t, dt)\n',
+    }
+    obs = []
+    fn = m.methods(cls)['_get_code']
+    ctx.function(m, fn, cls + '._get_code')
+    try:
+        for kind, w in want.items():
+            got = run(kind, 'KOBJ')
+            obs.append(Obligation('wiring.%s' % kind, [], z3.BoolVal(
+                got == w), W, extra=dict(emitted=str(got)[:300],
+                                         documented=w[:300])))
+        # py_initialize
+        obj = SymObject(cls, dict(equations=[e0, e1], name='grp'), 'self')
+        obj.module = m.name
+        ex = Executor(repo, m, qualname=cls + '.get_py_initialize_code',
+                      merge=False)
+        ex.spec_env['indent'] = Native(lambda e, s_, a, k, n: '    ' + a[0])
+        f2 = m.methods(cls)['get_py_initialize_code']
+        outs = ex.exec_function(f2, dict(self=obj))
+        ctx.function(m, f2, cls + '.get_py_initialize_code', ex.dropped)
+        got = outs[0].value if len(outs) == 1 else None
+        w = ('with profile_ctx("AccelerationEval.grp.py_initialize"):\n'
+             '    self.all_equations["eq0"].py_initialize(dst.array, t, dt)')
+        obs.append(Obligation('wiring.py_initialize', [], z3.BoolVal(
+            got == w), W, extra=dict(emitted=str(got)[:300],
+                                     documented=w)))
+    except VCError as e:
+        ctx.outside('wiring', str(e))
+        return
+    ctx.prove('wiring.methods_are_called_with_their_own_arguments', obs,
+              replay=replay_wiring)
+
+
+def replay_wiring(model, ob):
+    script = r"""
+import json, sys, importlib.util
+d = json.load(sys.stdin)
+spec = importlib.util.spec_from_file_location('pysph.sph.equation_ut', d['root'] + '/pysph/sph/equation.py')
+mod = importlib.util.module_from_spec(spec); mod.__package__ = 'pysph.sph'; spec.loader.exec_module(mod)
+class E0(mod.Equation):
+    def initialize(self, d_idx, d_au, t, dt): pass
+    def loop(self, d_idx, s_idx, d_au, s_m, DWIJ, WIJ, SPH_KERNEL, dt, t): pass
+    def reduce(self, dst, t, dt): pass
+class E1(mod.Equation):
+    def loop(self, s_idx, d_idx, XIJ): pass
+    def post_loop(self, d_idx, d_au, dt, t): pass
+    def reduce(self, dst, t, dt): pass
+g = mod.CythonGroup([E0('f', ['f']), E1('f', ['f'])])
+g.equations[0].var_name = 'eq0'; g.equations[1].var_name = 'eq1'
+want = {'initialize': ['self.eq0.initialize(d_idx, d_au, t, dt)'],
+        'post_loop': ['self.eq1.post_loop(d_idx, d_au, dt, t)'],
+        'reduce': ['self.eq0.reduce(dst.array, t, dt)', 'self.eq1.reduce(dst.array, t, dt)']}
+bad = None
+for kind, w in want.items():
+    got = [l for l in g._get_code(None, kind).split('\n') if l.strip()]
+    if got != w and bad is None:
+        bad = dict(kind=kind, emitted=got, documented=w)
+got = [l for l in g._get_code(None, 'loop').split('\n') if l.startswith('self.')]
+w = ['self.eq0.loop(d_idx, s_idx, d_au, s_m, DWIJ, WIJ, self.kernel, dt, t)', 'self.eq1.loop(s_idx, d_idx, XIJ)']
+if got != w and bad is None:
+    bad = dict(kind='loop', emitted=got, documented=w)
+print(json.dumps(dict(bad=bad)))
+"""
+    from pyvc.repo import REPO_ROOT
+    try:
+        r = native.run_venv(script, dict(root=REPO_ROOT))
+    except Exception as e:
+        return dict(reproduced=False, note=str(e)[-300:])
+    return dict(reproduced=bool(r['bad']), **(r['bad'] or {}))
